@@ -54,7 +54,7 @@ func prioOf(class int) gen.MessagePriority {
 }
 
 var recSeq = kit.NewRecorder("C03", "sequential",
-	"receiver kind in {actor, supervisor, pool} parked in a handler while a generated script of <= 40 items is enqueued one by one (messages and requests of Normal/High/Max priority by pid/name/alias, trapped exit signals, inspect requests, down notifications of killed monitored helpers, log records); up to 3 items park the receiver again while draining and inject more items of generated classes; "+
+	"receiver kind in {actor, supervisor, pool, web worker} parked in a handler while a generated script of <= 40 items is enqueued one by one (messages and requests of Normal/High/Max priority by pid/name/alias, trapped exit signals, inspect requests, down notifications of killed monitored helpers, log records); up to 3 items park the receiver again while draining and inject more items of generated classes; "+
 		"oracle: reference model = four FIFOs drained Urgent>System>Main>Log one item at a time; the handled sequence must equal the model's exactly; "+
 		"non-trivial = >= 2 classes non-empty at once and >= 2 items in one class; distinct by script")
 
@@ -62,7 +62,7 @@ type env struct {
 	t      *rapid.T
 	node   gen.Node
 	probe  *kit.Probe
-	kind   int // 0 actor 1 supervisor 2 pool
+	kind   int // 0 actor 1 supervisor 2 pool 3 web worker
 	pid    gen.PID
 	alias  gen.Alias
 	name   gen.Atom
@@ -90,7 +90,7 @@ func (e *env) enqueue(o op, expectTotal int64) {
 	case 1:
 		to = e.name
 	case 2:
-		if e.kind == 0 {
+		if e.kind == 0 || e.kind == 3 {
 			to = e.alias
 		}
 	}
@@ -205,6 +205,9 @@ func genOps(t *rapid.T, kind int, n int, nextID *int, allowPark bool, parks *int
 			kinds = []int{kMsg, kMsg, kMsg, kReq, kInspect, kDown}
 		case 2:
 			kinds = []int{kMsg, kMsg, kReq, kInspect, kDown}
+		case 3:
+			// (a web worker does not trap exit signals and refuses to be a logger)
+			kinds = []int{kMsg, kMsg, kMsg, kReq, kInspect, kDown}
 		}
 		o.Kind = rapid.SampledFrom(kinds).Draw(t, "kind")
 		switch o.Kind {
@@ -304,6 +307,8 @@ func setup(t *rapid.T, kind int, probe *kit.Probe, all []op) (*env, func()) {
 				return act.SupervisorSpec{Type: act.SupervisorTypeOneForOne,
 					Children: []act.SupervisorChildSpec{{Name: "c1", Factory: child}}}, nil
 			}}), gen.ProcessOptions{})
+	case 3:
+		e.pid, err = node.SpawnRegister("recv", kit.WebFactory(&kit.WebConfig{Label: "recv", Probe: probe}), gen.ProcessOptions{})
 	case 2:
 		worker := kit.Factory(&kit.ActorConfig{Label: "worker", Probe: probe, Quiet: true})
 		e.pid, err = node.SpawnRegister("recv", kit.PoolFactory(&kit.PoolConfig{Label: "recv", Probe: probe,
@@ -348,6 +353,8 @@ func setup(t *rapid.T, kind int, probe *kit.Probe, all []op) (*env, func()) {
 		err = node.Send(e.pid, kit.DoSup{F: func(s *kit.Sup) { monitorAll(s) }, Done: done})
 	case 2:
 		err = node.SendWithPriority(e.pid, kit.DoPool{F: func(p *kit.Pool) { monitorAll(p) }, Done: done}, gen.MessagePriorityHigh)
+	case 3:
+		err = node.Send(e.pid, kit.DoWeb{F: func(w *kit.Web) { e.alias, _ = w.CreateAlias(); monitorAll(w) }, Done: done})
 	}
 	if err != nil {
 		cleanup()
@@ -393,7 +400,7 @@ func (e *env) idOf(ev kit.Event) int {
 }
 
 func propSequential(t *rapid.T) {
-	kind := rapid.IntRange(0, 2).Draw(t, "receiver_kind")
+	kind := rapid.IntRange(0, 3).Draw(t, "receiver_kind")
 	nextID := 1
 	parks := 0
 	root := op{ID: 0, Kind: kMsg, Class: cSystem, Park: true}
@@ -501,7 +508,7 @@ var recConc = kit.NewRecorder("C03", "concurrent",
 		"non-trivial = some sender has >= 2 items in one class and >= 2 classes are used; distinct by script")
 
 func propConcurrent(t *rapid.T) {
-	kind := rapid.IntRange(0, 2).Draw(t, "receiver_kind")
+	kind := rapid.IntRange(0, 3).Draw(t, "receiver_kind")
 	ns := rapid.IntRange(2, 4).Draw(t, "senders")
 	type it struct{ class, mode int }
 	plans := make([][]it, ns)
@@ -542,7 +549,7 @@ func propConcurrent(t *rapid.T) {
 				var to any = e.pid
 				if x.mode == 1 {
 					to = e.name
-				} else if x.mode == 2 && kind == 0 {
+				} else if x.mode == 2 && (kind == 0 || kind == 3) {
 					to = e.alias
 				}
 				if err := e.node.SendWithPriority(to, kit.Numbered{ID: ids[s][j]}, prioOf(x.class)); err != nil {
